@@ -324,3 +324,74 @@ theorem C11_sequence_full_instance : ∃ (o : BOut), ∃ out,
   exact ⟨o, out, h1, (h5 (by simp)).1, h3⟩
 
 end XPathV.Theorems.NonVacuity.C11
+
+/-! ## `C11_from_text`: from the expression text, through `compile` -/
+namespace XPathV.Theorems.NonVacuity.C11
+open XPathV XPathV.Model XPathV.Theorems.NonVacuity XPathV.PosSem
+open XPathV.PathSem XPathV.PredSem XPathV.PredSem2 XPathV.UnionSem XPathV.UnionSem2
+
+attribute [local instance] toyAlg
+
+/-- `C11_from_text` at the text `/r/*[@x != @y] | /r/*[count(@x) = 1]` (`hparse` =
+`union_full_parsed`, `hA`, `hB` with operands of `Frag2` outside `Frag`), the builder-error disjunct
+refuted by running `compile`, then the second disjunct's inner hypotheses (`WF`, `nsIface`,
+`HashInj`, `validRef`) on `d0` from the document node: `Select` on the compiled text yields
+`{a[1], b}`, each once (the operands share `b`) -/
+theorem C11_from_text_instance :
+    ∃ p l, compile {} none "/r/*[@x != @y] | /r/*[count(@x) = 1]".toList = .ok p ∧
+    selectAll (F := Int) d0 {} p (.node 0) = .ok l ∧ l.Nodup ∧
+    ∀ x, x ∈ l ↔ x ∈ [Ref.node 2, .node 4] := by
+  rcases Theorems.C11.C11_from_text (fun _ => true) none _ pC pN union_full_parsed pC_frag2 pN_frag2 with
+    ⟨e, he⟩ | ⟨p, hp, h⟩
+  · exact absurd he (by
+      have : (compile {} none "/r/*[@x != @y] | /r/*[count(@x) = 1]".toList).isOk = true := by
+        decide +kernel
+      intro h'; rw [h'] at this; cases this)
+  · obtain ⟨l, nsl, h1, h2, h3, h4⟩ := h Int d0 wf_d0 {} rfl hashInj_d0 (.node 0) (by decide)
+    have e : Spec.evalTop (F := Int) d0 (.oper "|" pC pN) (.node 0) = .ok (.nodes [.node 2, .node 4]) := by
+      decide +kernel
+    rw [e] at h3; cases h3
+    exact ⟨p, l, hp, h1, h2, h4⟩
+
+/-- the `_unconditional` form at the same text: `AttrTriplesDistinct d0` instead of `HashInj` -/
+theorem C11_from_text_unconditional_instance :
+    ∃ p l, compile {} none "/r/*[@x != @y] | /r/*[count(@x) = 1]".toList = .ok p ∧
+    selectAll (F := Int) d0 {} p (.node 0) = .ok l ∧ l.Nodup ∧
+    ∀ x, x ∈ l ↔ x ∈ [Ref.node 2, .node 4] := by
+  rcases Theorems.C11.C11_from_text_unconditional (fun _ => true) none _ pC pN union_full_parsed
+      pC_frag2 pN_frag2 with ⟨e, he⟩ | ⟨p, hp, h⟩
+  · exact absurd he (by
+      have : (compile {} none "/r/*[@x != @y] | /r/*[count(@x) = 1]".toList).isOk = true := by
+        decide +kernel
+      intro h'; rw [h'] at this; cases this)
+  · obtain ⟨l, nsl, h1, h2, h3, h4⟩ :=
+      h Int d0 wf_d0 {} rfl d0_attrNames.1.triples (.node 0) (by decide)
+    have e : Spec.evalTop (F := Int) d0 (.oper "|" pC pN) (.node 0) = .ok (.nodes [.node 2, .node 4]) := by
+      decide +kernel
+    rw [e] at h3; cases h3
+    exact ⟨p, l, hp, h1, h2, h4⟩
+
+/-- `C11_from_text_evaluate` at the same text: `Evaluate` returns the list `Select` yields -/
+theorem C11_from_text_evaluate_instance :
+    ∃ p l, compile {} none "/r/*[@x != @y] | /r/*[count(@x) = 1]".toList = .ok p ∧
+    selectAll (F := Int) d0 {} p (.node 0) = .ok l ∧
+    evaluate (F := Int) d0 {} p (.node 0) = .ok (.nodes l) ∧ l.Nodup ∧
+    ∀ x, x ∈ l ↔ x ∈ [Ref.node 2, .node 4] := by
+  rcases Theorems.C11.C11_from_text_evaluate (fun _ => true) none _ pC pN union_full_parsed
+      pC_frag2 pN_frag2 with ⟨e, he⟩ | ⟨p, hp, _, h⟩
+  · exact absurd he (by
+      have : (compile {} none "/r/*[@x != @y] | /r/*[count(@x) = 1]".toList).isOk = true := by
+        decide +kernel
+      intro h'; rw [h'] at this; cases this)
+  · obtain ⟨l, nsl, h1, h2, h3, h4, _, h6, _⟩ :=
+      h Int d0 wf_d0 {} rfl hashInj_d0 (.node 0) (by decide)
+    have e : Spec.evalTop (F := Int) d0 (.oper "|" pC pN) (.node 0) = .ok (.nodes [.node 2, .node 4]) := by
+      decide +kernel
+    rw [e] at h4; cases h4
+    exact ⟨p, l, hp, h1, h2, h3, h6⟩
+
+end XPathV.Theorems.NonVacuity.C11
+
+section AxiomAuditFromText
+open XPathV.Theorems.NonVacuity.C11
+end AxiomAuditFromText
